@@ -238,6 +238,17 @@ def check_C03(ctx):
         for m in modes:
             cases.append(dict(files={"food.yaml": b"", "log.yaml": log.encode()}, cmd="bal", **m, **NOCOLOR)); meta.append((None, log))
         ctx.nontriv(log)
+    # a category whose first child carries the category's whole total while its other children cancel (a correction of +30 / -30, a zero quantity):
+    # the children are several, so nothing is joined in any mode, and every branch keeps its row
+    for k in range(ctx.scale(30, 400)):
+        cat = r.choice(["cat", "food/x", "a"]); q = r.choice(["5", "2.5", "12"]); z = r.choice(["30", "7", "0.5"])
+        ents = [(cat + "/a", q), (cat + "/b", z), (cat + "/c", "-" + z)] if r.random() < 0.6 else [(cat + "/a", q), (cat + "/z", "0")]
+        if r.random() < 0.4: ents.append(("other/" + gen.word(r, 2, 4), "1"))
+        r.shuffle(ents)
+        log = "2021/01/01:\n" + "".join("  %s: %s\n" % e for e in ents)
+        for m in modes:
+            cases.append(dict(files={"food.yaml": b"", "log.yaml": log.encode()}, cmd="bal", **m, **NOCOLOR)); meta.append((None, log))
+        ctx.nontriv(log)
     # path segments with characters that mean something to fmt, text/template or the column layout (a name is data, never a format)
     oddseg = ["100%", "3.5%", "%s", "%d", "%v%v", "50%off", "a b", "a.b", "a,b", "é", "x%", "%", "{{.}}", "a\\b", "$1", "%!s(MISSING)", "%%"]
     for k in range(ctx.scale(40, 600)):
